@@ -266,8 +266,21 @@ def run(ctx):
             if d:
                 ctx.fail("results change when other commands also consume intermediate results: %s" % d, {"source": sc.source, "with_consumers": Scenario(extra, wd=tmp, libs=LIBS).source})
     answers = model.ask(lines)
+    # independent reference definitions (exact arithmetic, written without looking at the model): they decide, on the implementation, whether a
+    # command's result inside a running program equals the mathematical evaluation of its inputs
+    from .. import reference
+    from . import c08
+    ref_orc = numeric.combine(numeric.oracle_definition(ctx, reference.FUZZY_OPS, "EEMS", in_range_only=True),
+                              numeric.oracle_definition(ctx, reference.ARITH_OPS, "arithmetic"),
+                              c08.oracle_mapping(ctx))
     for (case, st, out, desc, rname), ans in zip(metas, answers):
         ctx.count("execute_calls_replayed")
+        if st == "ok" and isinstance(out, numpy.ndarray):
+            nf = len(ctx.failures)
+            ref_orc(case, {"status": "ok", "vis": common.vis_arr(out), "result": out}, ans)
+            for f in ctx.failures[nf:]:
+                f["what"] = "command %s of the model: %s" % (rname, f["what"])
+                f["case"] = {"command": rname, "call": f["case"], "program": desc}
         if ans.startswith("err raw Degenerate") or ans.startswith("err raw NotAdmissible"):
             ctx.count("outside_model_domain")
             continue
